@@ -91,6 +91,10 @@ NAMES = {
         (r"^if t\.__forward_evaluated__:", "isev"),
         (r"^return t\.__forward_value__, True", "rdval"),
     ],
+    "rrf": [
+        (r"^if not cls\.__args__:", "args?"),
+        (r"^for arg, trans in zip\(cls\.__args__, cls\.__arg_transformers__\):", "zip"),
+    ],
     "pv": [
         (r"^type = self\.type", "rdty"),
         (r"^type=self\.type,", "errty"),
@@ -684,6 +688,8 @@ class C20(Check):
             return f"driver: {mo}"
         if io.get("deadlock"):
             return "implementation dead-locked; the model has no dead-lock"
+        if not mo["follows"] and mo.get("model_label") == "<unmodelled>":
+            return None                   # the run left the modelled fragment (the model says so itself)
         if not mo["follows"]:
             k = mo["at"]
             return (f"control flow differs at event #{k}: the code executed {io['trace'][k]} where the model "
